@@ -37,7 +37,9 @@ SOURCES = ["c01", "c03", "c04", "c06", "c09", "c10", "c19"]
 
 # ----------------------------------------------------------------------------- kernel table from the .pyx text
 def kernel_table() -> Dict[str, Any]:
-    pyx = open("/repo/numpoly/cfunctions/cvalues.pyx").read()
+    import os
+
+    pyx = open(os.environ.get("NV_REPO", "/repo") + "/numpoly/cfunctions/cvalues.pyx").read()
     funcs = {}
     for m in re.finditer(r"cdef void (c(?:set|add)_(\w+)_values_1d)\(\s*(\w+) \[::1\] coeffs.*?cdef (\w+) \*value_ptr.*?value_ptr\[0\] (\+?=) coeffs\[i\]", pyx, re.S):
         funcs[m.group(1)] = {"memview": m.group(3), "ptr": m.group(4), "op": m.group(5)}
